@@ -50,6 +50,69 @@ Qed.
 Lemma loop_out_ok {A} (f : hg -> A -> res) l : (forall s x, out_of (f s x) = Ok) -> forall s, out_of (loop f l s) = Ok.
 Proof. intro H. apply (loop_out (fun o => o = Ok)); [reflexivity|exact H]. Qed.
 
+(* ---------- the label attribute ---------- *)
+Lemma has_set_keep {V} k k0 (v : V) d : has k d = true -> has k (set k0 v d) = true.
+Proof.
+  unfold has. rewrite get_set. destruct (lbl_eqb k k0); [reflexivity|auto].
+Qed.
+
+Lemma set_node_attrs_dict_get vals : forall s, NoDup (map fst vals) ->
+  (forall nd, In nd vals -> has (fst nd) (h_nattr s) = true) ->
+  (forall n, get n (h_nattr (st_of (set_node_attrs_dict vals s))) =
+             match get n vals with Some d => Some (aupdate (geta n (h_nattr s)) d) | None => get n (h_nattr s) end) /\
+  h_eattr (st_of (set_node_attrs_dict vals s)) = h_eattr s.
+Proof.
+  unfold set_node_attrs_dict. induction vals as [|[n0 d0] vals IH]; intros s ND Hh.
+  - cbn [loop]. rewrite st_of_ok. split; [intro n; reflexivity|reflexivity].
+  - inversion ND as [|? ? Hn ND']; subst.
+    assert (H0 : has n0 (h_nattr s) = true) by (apply (Hh (n0, d0)); left; reflexivity).
+    set (f := fun s nd => let '(n, d) := nd in if has n (h_nattr s) then ok (nattr_update n d s) else warn1 s) in *.
+    assert (F : f s (n0, d0) = (nattr_update n0 d0 s, Ok, O)) by (unfold f; rewrite H0; reflexivity).
+    destruct (loop_cons_ok f (n0, d0) vals s _ O F) as [E1 _]. rewrite E1.
+    destruct (IH (nattr_update n0 d0 s) ND') as [G1 G2].
+    { intros nd Hnd. unfold nattr_update. cbn [h_nattr with_nattr]. apply has_set_keep. apply Hh. right. exact Hnd. }
+    split; [|rewrite G2; reflexivity].
+    intro n. rewrite G1. cbn [get]. unfold nattr_update. cbn [h_nattr with_nattr].
+    destruct (lbl_eqb_spec n n0) as [->|N].
+    + assert (Gn : get n0 vals = None).
+      { apply get_None. exact Hn. }
+      rewrite Gn, get_set_same. reflexivity.
+    + unfold geta. rewrite (get_set_other n0 n _ _ N). reflexivity.
+Qed.
+
+Lemma set_edge_attrs_dict_get vals : forall s, NoDup (map fst vals) ->
+  (forall nd, In nd vals -> has (fst nd) (h_eattr s) = true) ->
+  (forall n, get n (h_eattr (st_of (set_edge_attrs_dict vals s))) =
+             match get n vals with Some d => Some (aupdate (geta n (h_eattr s)) d) | None => get n (h_eattr s) end) /\
+  h_nattr (st_of (set_edge_attrs_dict vals s)) = h_nattr s.
+Proof.
+  unfold set_edge_attrs_dict. induction vals as [|[n0 d0] vals IH]; intros s ND Hh.
+  - cbn [loop]. rewrite st_of_ok. split; [intro n; reflexivity|reflexivity].
+  - inversion ND as [|? ? Hn ND']; subst.
+    assert (H0 : has n0 (h_eattr s) = true) by (apply (Hh (n0, d0)); left; reflexivity).
+    set (f := fun s nd => let '(n, d) := nd in if has n (h_eattr s) then ok (eattr_update n d s) else warn1 s) in *.
+    assert (F : f s (n0, d0) = (eattr_update n0 d0 s, Ok, O)) by (unfold f; rewrite H0; reflexivity).
+    destruct (loop_cons_ok f (n0, d0) vals s _ O F) as [E1 _]. rewrite E1.
+    destruct (IH (eattr_update n0 d0 s) ND') as [G1 G2].
+    { intros nd Hnd. unfold eattr_update. cbn [h_eattr with_eattr]. apply has_set_keep. apply Hh. right. exact Hnd. }
+    split; [|rewrite G2; reflexivity].
+    intro n. rewrite G1. cbn [get]. unfold eattr_update. cbn [h_eattr with_eattr].
+    destruct (lbl_eqb_spec n n0) as [->|N].
+    + assert (Gn : get n0 vals = None).
+      { apply get_None. exact Hn. }
+      rewrite Gn, get_set_same. reflexivity.
+    + unfold geta. rewrite (get_set_other n0 n _ _ N). reflexivity.
+Qed.
+
+Lemma get_map_inj {V} (f : lbl -> lbl) (g : lbl -> V) l n : In n l ->
+  (forall x y, In x l -> In y l -> f x = f y -> x = y) -> get (f n) (map (fun x => (f x, g x)) l) = Some (g n).
+Proof.
+  induction l as [|a l IH]; intros Hn Hinj; [destruct Hn|]. cbn [map get].
+  destruct (lbl_eqb_spec (f n) (f a)) as [E|N].
+  - rewrite (Hinj n a Hn (or_introl eq_refl) E). reflexivity.
+  - destruct Hn as [->|Hn]; [congruence|]. apply IH; [exact Hn|]. intros x y Hx Hy. apply Hinj; right; assumption.
+Qed.
+
 Theorem relabel_spec la s : Inv s ->
   let r := relabel_inplace la s in
   let t := st_of r in
@@ -61,7 +124,12 @@ Theorem relabel_spec la s : Inv s ->
   (forall e, In e (ekeys s) -> seteq (mems t (emap e)) (map nmap (mems s e))) /\
   (forall x y, In x (nkeys s) -> In y (nkeys s) -> nmap x = nmap y -> x = y) /\
   (forall x y, In x (ekeys s) -> In y (ekeys s) -> emap x = emap y -> x = y) /\
-  h_net t = h_net s.
+  h_net t = h_net s /\
+  (* the old labels are recorded: attributes are carried over and the label attribute is set last *)
+  (forall n, In n (nkeys s) ->
+     get (nmap n) (h_nattr t) = Some (aupdate (aupdate [] (aupdate [] (geta n (h_nattr s)))) [(la, aval_of_lbl n)])) /\
+  (forall e, In e (ekeys s) ->
+     get (emap e) (h_eattr t) = Some (aupdate (aupdate [] (aupdate [] (geta e (h_eattr s)))) [(la, aval_of_lbl e)])).
 Proof.
   intros I. cbv zeta. unfold relabel_inplace. cbv zeta.
   pose proof I as (W & (_ & _ & Kn & Ke) & _).
@@ -75,7 +143,7 @@ Proof.
   assert (NDn : NoDup (map nmap (nkeys s))).
   { unfold nmap. rewrite (map_index_positions (nkeys s) Kn).
     apply FinFun.Injective_map_NoDup; [intros a b E; injection E as E; apply Nat2Z.inj; exact E|apply seq_NoDup]. }
-  destruct (build_nodes_effect nitems [] s0 I0) as (O1 & I1 & K1 & E1 & EA1 & NT1 & U1 & _ & _).
+  destruct (build_nodes_effect nitems [] s0 I0) as (O1 & I1 & K1 & E1 & EA1 & NT1 & U1 & New1 & _).
   { rewrite Fn. exact NDn. }
   { intros it Hit. unfold nitems in Hit. apply in_map_iff in Hit. destruct Hit as (n & <- & _). cbn [fst]. split; [reflexivity|intros []]. }
   set (r1 := add_nodes_from nitems [] s0) in *. set (s1 := st_of r1) in *.
@@ -91,6 +159,24 @@ Proof.
   assert (Net2 : h_net s2 = h_net s).
   { unfold s2, r2, set_node_attrs_dict. apply (loop_inv (fun t => h_net t = h_net s)); [|exact NT1].
     intros s' [n d] H. destruct (has n (h_nattr s')); [rewrite st_of_ok|]; exact H. }
+  assert (InjN : forall x y, In x (nkeys s) -> In y (nkeys s) -> nmap x = nmap y -> x = y).
+  { intros x y Hx Hy E. unfold nmap in E. injection E as E. apply (index_of_inj (nkeys s) x y 0 Kn Hx Hy E). }
+  assert (InjE : forall x y, In x (ekeys s) -> In y (ekeys s) -> emap x = emap y -> x = y).
+  { intros x y Hx Hy E. unfold emap in E. injection E as E. apply (index_of_inj (ekeys s) x y 0 Ke Hx Hy E). }
+  assert (NA1 : forall n, In n (nkeys s) -> get (nmap n) (h_nattr s1) = Some (aupdate [] (aupdate [] (geta n (h_nattr s))))).
+  { intros n Hn. destruct (New1 (nmap n, Some (geta n (h_nattr s)))) as [G _].
+    { unfold nitems. apply in_map_iff. exists n. split; [reflexivity|exact Hn]. }
+    exact G. }
+  assert (NA2 : forall n, In n (nkeys s) ->
+            get (nmap n) (h_nattr s2) = Some (aupdate (aupdate [] (aupdate [] (geta n (h_nattr s)))) [(la, aval_of_lbl n)])).
+  { intros n Hn. destruct (set_node_attrs_dict_get nlab s1) as [G _].
+    { unfold nlab. rewrite map_map. exact NDn. }
+    { intros nd Hnd. unfold nlab in Hnd. apply in_map_iff in Hnd. destruct Hnd as (m & <- & Hm). cbn [fst].
+      unfold has. fold (nmap m). rewrite (NA1 m Hm). reflexivity. }
+    fold r2 in G. fold s2 in G. rewrite G.
+    change (get (nmap n) nlab) with (get (nmap n) (map (fun x => (nmap x, [(la, aval_of_lbl x)])) (nkeys s))).
+    rewrite (get_map_inj nmap (fun n => [(la, aval_of_lbl n)]) (nkeys s) n Hn InjN).
+    unfold geta. rewrite (NA1 n Hn). reflexivity. }
   (* the edges *)
   set (eitems := map (fun e => (map nmap (getl e (h_edge s)), LInt (Hypergraph.index_of e (ekeys s) 0), geta e (h_eattr s))) (ekeys s)).
   assert (Fe : map item_id eitems = map emap (ekeys s)) by (unfold eitems; rewrite map_map; reflexivity).
@@ -104,9 +190,11 @@ Proof.
   assert (Res3 : exists r3, r3 = add_edges_from (EB4 eitems) [] s2 /\
             out_of r3 = Ok /\ Inv (st_of r3) /\ ekeys (st_of r3) = map emap (ekeys s) /\
             nkeys (st_of r3) = nkeys s2 /\ h_net (st_of r3) = h_net s /\
-            (forall e, In e (ekeys s) -> seteq (mems (st_of r3) (emap e)) (map nmap (mems s e)))).
+            (forall e, In e (ekeys s) -> seteq (mems (st_of r3) (emap e)) (map nmap (mems s e))) /\
+            (forall n, In n (nkeys s2) -> get n (h_nattr (st_of r3)) = get n (h_nattr s2)) /\
+            (forall e, In e (ekeys s) -> get (emap e) (h_eattr (st_of r3)) = Some (aupdate [] (aupdate [] (geta e (h_eattr s)))))).
   { eexists. split; [reflexivity|].
-      destruct (build_edges_effect eitems [] s2 I2) as (O3 & _ & I3 & E3 & Items & _ & NK3 & (l & NP3) & _ & NT3).
+      destruct (build_edges_effect eitems [] s2 I2) as (O3 & _ & I3 & E3 & Items & _ & NK3 & (l & NP3) & NAold & NT3).
       { split; [rewrite Fe; exact NDe|]. intros it Hit. unfold eitems in Hit. apply in_map_iff in Hit.
         destruct Hit as (e & <- & He). cbn [item_id item_ms fst snd]. split; [rewrite Ek2; intros []|]. split; [reflexivity|].
         apply no_none_members. intro Hm. apply in_map_iff in Hm. destruct Hm as (x & E & _). discriminate E. }
@@ -123,10 +211,15 @@ Proof.
             apply in_map. apply (members_are_nodes s e y I). exact Hy. }
         rewrite NP3, Hl, app_nil_r. reflexivity. }
       split; [rewrite NT3; exact Net2|].
-      intros e He. destruct (Items (map nmap (getl e (h_edge s)), emap e, geta e (h_eattr s))) as [(M & GM & SM & _) _].
+      split.
+      { intros e He. destruct (Items (map nmap (getl e (h_edge s)), emap e, geta e (h_eattr s))) as [(M & GM & SM & _) _].
+        { unfold eitems. apply in_map_iff. exists e. split; [reflexivity|exact He]. }
+        cbn [item_id item_ms fst snd] in GM, SM. unfold mems at 1, getl. rewrite GM. exact SM. }
+      split; [exact NAold|].
+      intros e He. destruct (Items (map nmap (getl e (h_edge s)), emap e, geta e (h_eattr s))) as [_ GA].
       { unfold eitems. apply in_map_iff. exists e. split; [reflexivity|exact He]. }
-      cbn [item_id item_ms fst snd] in GM, SM. unfold mems at 1, getl. rewrite GM. exact SM. }
-  destruct Res3 as (r3 & Er3 & O3 & I3 & K3 & N3 & Net3 & M3). rewrite <- Er3.
+      cbn [item_id item_attr fst snd] in GA. exact GA. }
+  destruct Res3 as (r3 & Er3 & O3 & I3 & K3 & N3 & Net3 & M3 & NA3 & EA3). rewrite <- Er3.
   match goal with |- context [bind r3 ?k] => destruct (bind_ok_st r3 k O3) as [Est Eout] end. rewrite Est, Eout. clear Est Eout. cbv beta.
   set (s3 := st_of r3) in *.
   set (elab := map (fun e => (LInt (Hypergraph.index_of e (ekeys s) 0), [(la, aval_of_lbl e)])) (ekeys s)).
@@ -142,10 +235,20 @@ Proof.
   { unfold ekeys at 1. rewrite S4e. fold (ekeys s3). rewrite K3. apply (map_index_positions (ekeys s) Ke). }
   split.
   { intros e He. unfold mems at 1. rewrite S4e. fold (mems s3 (emap e)). apply M3. exact He. }
+  split; [exact InjN|]. split; [exact InjE|].
   split.
-  { intros x y Hx Hy E. unfold nmap in E. injection E as E. apply (index_of_inj (nkeys s) x y 0 Kn Hx Hy E). }
+  { unfold set_edge_attrs_dict. apply (loop_inv (fun t => h_net t = h_net s)); [|exact Net3].
+    intros s' [e d] H. destruct (has e (h_eattr s')); [rewrite st_of_ok|]; exact H. }
+  destruct (set_edge_attrs_dict_get elab s3) as [G4 N4].
+  { unfold elab. rewrite map_map. exact NDe. }
+  { intros nd Hnd. unfold elab in Hnd. apply in_map_iff in Hnd. destruct Hnd as (m & <- & Hm). cbn [fst].
+    unfold has. fold (emap m). rewrite (EA3 m Hm). reflexivity. }
   split.
-  { intros x y Hx Hy E. unfold emap in E. injection E as E. apply (index_of_inj (ekeys s) x y 0 Ke Hx Hy E). }
-  unfold set_edge_attrs_dict. apply (loop_inv (fun t => h_net t = h_net s)); [|exact Net3].
-  intros s' [e d] H. destruct (has e (h_eattr s')); [rewrite st_of_ok|]; exact H.
+  { intros n Hn. rewrite N4. fold s3. rewrite NA3; [apply NA2; exact Hn|].
+    unfold nkeys. rewrite S2n. fold (nkeys s1). rewrite K1. cbn [nkeys s0 h_node keys map app]. rewrite Fn.
+    apply (in_map nmap (nkeys s) n Hn). }
+  intros e He.
+  assert (Ge : @get attrs (emap e) elab = Some [(la, aval_of_lbl e)]) by (exact (get_map_inj emap (fun e => [(la, aval_of_lbl e)]) (ekeys s) e He InjE)).
+  specialize (G4 (emap e)). rewrite Ge in G4. eapply eq_trans; [exact G4|].
+  unfold geta. fold s3 in EA3. rewrite (EA3 e He). reflexivity.
 Qed.
